@@ -45,7 +45,9 @@ func runLife(e *Env) {
 	numConns := 1 + tp.Next(4)
 	// the long one outlives the driver's one-second event debounce: a request can still be
 	// outstanding when a status event for its host is acted upon
-	timeout := []time.Duration{300 * time.Millisecond, 100 * time.Millisecond, 2500 * time.Millisecond}[tp.Next(3)]
+	// (0: no request timeout at all - the documented meaning of Timeout 0; what the node
+	// never answers is then waited for until the connection goes away)
+	timeout := []time.Duration{300 * time.Millisecond, 100 * time.Millisecond, 2500 * time.Millisecond, 0}[tp.Weighted([]int{3, 3, 3, 1})]
 	nTasks := 1 + tp.Next(4)
 	nOps := 2 + tp.Next(5)
 	closers := tp.Next(3)                  // none: the session stays open to the end and its pools are inspected after a settle
